@@ -96,7 +96,7 @@ func VH_C08_ReadSTL() {
 		copy(d[253:255], vsymstr(2, "09 x-"))
 		copy(d[256:264], vsymstr(3, "09 x:")+"     ")
 	case 5: // TTI header and text
-		d[1024+3] = nondetByteIn("\xff\xfe") // extension block number
+		d[1024+3] = nondetByteIn("\xff\xfe")      // extension block number
 		d[1024+14] = nondetByteIn("\x00\x03\x07") // justification code
 		d[1024+13] = nondetByteIn("\x00\x17\xff") // vertical position
 		for i := 0; i < vbound("textbytes", 2, 3); i++ {
